@@ -798,13 +798,19 @@ class Panic(Exception):
         self.info = info
 
 
+def short(msg, n=420):
+    """error messages echo their input: keep head and tail (the reason is at the end)"""
+    msg = msg if isinstance(msg, str) else show(msg, 1 << 30)
+    return msg if len(msg) <= n else msg[:140] + " ... " + msg[-(n - 150):]
+
+
 def _outcome(o):
     o = dec(o)
     if o[0] == 0:
         return ("ok", o[1].b, o[2])
     if o[0] == 1:
-        return ("rerr", o[1].b, show(o[2], 300))
-    return ("werr", None, show(o[1], 300))
+        return ("rerr", o[1].b, short(o[2]))
+    return ("werr", None, short(o[1]))
 
 
 def via_filter(c, F, vals):
@@ -830,13 +836,13 @@ def via_fmt(c, F, v, mode):
     if "harness_error" in r:
         raise SystemExit("HARNESS: %r" % (r,))
     if r.get("error") is not None:
-        return ("werr", bytes.fromhex(r.get("partial", "")), r["error"][:300])
+        return ("werr", bytes.fromhex(r.get("partial", "")), short(r["error"]))
     w = bytes.fromhex(r["bytes"])
     r2 = c.request({"op": "fmt", "dir": "read", "format": F, "bytes": r["bytes"]}, 120)
     if r2.get("panic"):
         return ("panic", w, r2["panic"])
     if r2.get("error") is not None:
-        return ("rerr", w, r2["error"][:300])
+        return ("rerr", w, short(r2["error"]))
     return ("ok", w, [dec(x) for x in r2["vals"]])
 
 
@@ -988,26 +994,28 @@ def minimise(F, v, first_failing, budget=800):
     steps = 0
     while steps < budget:
         cands = []
+        dup = set()
         for cand in sub_candidates(F, cur):
             mc = measure(cand)
             if not mc < m:
                 continue
             fz = freeze(cand)
-            if fz in seen:
+            if fz in seen or fz in dup:
                 continue
-            seen.add(fz)
-            cands.append((cand, mc))
+            dup.add(fz)
+            cands.append((cand, mc, fz))
         hit = None
         for lo in range(0, len(cands), 24):
             chunk = cands[lo:lo + 24]
             steps += len(chunk)
-            i = first_failing([x for x, _ in chunk])
+            i = first_failing([x for x, _m, _f in chunk])
+            seen.update(fz for _x, _m, fz in (chunk if i is None else chunk[:i]))      # known not to fail
             if i is not None:
                 hit = chunk[i]
                 break
         if hit is None:
             break
-        cur, m = hit
+        cur, m = hit[0], hit[1]
     return cur
 
 
@@ -1391,6 +1399,10 @@ def doc_reductions(d):
             yield dict(d, decl=dict(x, q='"'))
         if x["sp"]:
             yield dict(d, decl=dict(x, sp=""))
+        if x["version"] != "1.0":
+            yield dict(d, decl=dict(x, version="1.0"))
+        if x["standalone"] == "no":
+            yield dict(d, decl=dict(x, standalone="yes"))
     for part in ("pre", "mid", "post"):
         for i in range(len(d[part])):
             yield dict(d, **{part: d[part][:i] + d[part][i + 1:]})
@@ -1458,8 +1470,8 @@ def xml_filter(c, docs):
     out = []
     for o in res["outs"]:
         o = dec(o[0])
-        out.append({0: lambda: ("ok", o[1], o[2].b, o[3]), 1: lambda: ("reread-error", o[1], o[2].b, show(o[3], 300)),
-                    2: lambda: ("toxml-error", o[1], None, show(o[2], 300)), 3: lambda: ("rejected", None, None, show(o[1], 300))}[o[0]]())
+        out.append({0: lambda: ("ok", o[1], o[2].b, o[3]), 1: lambda: ("reread-error", o[1], o[2].b, short(o[3])),
+                    2: lambda: ("toxml-error", o[1], None, short(o[2])), 3: lambda: ("rejected", None, None, short(o[1]))}[o[0]]())
     return out
 
 
@@ -1469,7 +1481,7 @@ def xml_library(c, doc):
     if r.get("panic"):
         return ("panic", r["panic"])
     if r.get("error") is not None:
-        return ("rejected", None, None, r["error"][:300])
+        return ("rejected", None, None, short(r["error"]))
     a = [dec(x) for x in r["vals"]]
     w = b""
     for x in r["vals"]:
@@ -1477,13 +1489,13 @@ def xml_library(c, doc):
         if r2.get("panic"):
             return ("panic", r2["panic"])
         if r2.get("error") is not None:
-            return ("toxml-error", a, None, r2["error"][:300])
+            return ("toxml-error", a, None, short(r2["error"]))
         w += bytes.fromhex(r2["bytes"])
     r3 = c.request({"op": "fmt", "dir": "read", "format": "xml", "bytes": w.hex()}, 120)
     if r3.get("panic"):
         return ("panic", r3["panic"])
     if r3.get("error") is not None:
-        return ("reread-error", a, w, r3["error"][:300])
+        return ("reread-error", a, w, short(r3["error"]))
     return ("ok", a, w, [dec(x) for x in r3["vals"]])
 
 
@@ -1744,16 +1756,18 @@ def xml_shrink_task(f):
         seen = set()
         while steps < 3000:
             cands = []
+            dup = set()
             for cand in doc_reductions(cur):
                 r = render(cand)
-                if r not in seen:
-                    seen.add(r)
-                    cands.append((cand, r.encode("utf-8")))
+                if r not in seen and r not in dup:
+                    dup.add(r)
+                    cands.append((cand, r))
             hit = None
             for lo in range(0, len(cands), 16):
                 chunk = cands[lo:lo + 16]
                 steps += len(chunk)
-                i = first_failing([b for _c, b in chunk])
+                i = first_failing([r.encode("utf-8") for _c, r in chunk])
+                seen.update(r for _c, r in (chunk if i is None else chunk[:i]))
                 if i is not None:
                     hit = chunk[i][0]
                     break
